@@ -43,6 +43,7 @@ func checkC16(p *Prog, r *Report) {
 	c16Refresh(p, r)
 	c16Outage(p, r)
 	c17NilStore16(p, r)
+	c16AddKeepsPool(p, r)
 }
 
 func c17NilStore16(p *Prog, r *Report) {
@@ -788,4 +789,52 @@ func c16Outage(p *Prog, r *Report) {
 		hb = append(hb, "no handler compares the outage with the readiness timeout")
 	}
 	r.check(len(hb) == 0, rule, "readiness handler", "", "", strings.Join(dedupe(hb), " || "))
+}
+
+// c16AddKeepsPool: an AddEvent for a host that already has a pool leaves that pool in
+// service.  With sync.Map.LoadOrStore the first result is the pool that IS in the map: on
+// the loaded path the pool to dispose of is the one just built, never the one returned.
+func c16AddKeepsPool(p *Prog, r *Report) {
+	const rule = "C16.add-keeps-pool"
+	r.Rule(rule, "when a host that already has a connection pool is announced again, the pool in service is kept: on the 'already present' path of LoadOrStore the pool that is cancelled is the newly built one, not the one returned from the map (cancelling that one leaves the host without connections for good: it stays in the map and never reconnects)")
+	sess := p.Named("proxycore", "Session")
+	onEvent := p.methodOf(sess, "OnEvent")
+	poolsF := p.Field("proxycore", "Session", "pools")
+	var bad []string
+	n := 0
+	for _, fn := range withClosures(onEvent) {
+		eachCall(fn, func(c ssa.CallInstruction) {
+			if !callIsMethod(c, "sync", "Map", "LoadOrStore") {
+				return
+			}
+			if f, ok := firstArgField(c); !ok || f != poolsF {
+				return
+			}
+			n++
+			call := c.(*ssa.Call)
+			// every cancel in this function whose receiver derives from the value LoadOrStore returned
+			eachCall(fn, func(cc ssa.CallInstruction) {
+				callee := cc.Common().StaticCallee()
+				var recv ssa.Value
+				switch {
+				case callee != nil && callee.Name() == "cancel" && len(cc.Common().Args) > 0:
+					recv = cc.Common().Args[0]
+				case callee == nil && !cc.Common().IsInvoke():
+					// p.cancel is a func field: the call's value is loaded from a field of the pool
+					if _, base := loadedField(cc.Common().Value); base != nil {
+						recv = base
+					}
+				}
+				if recv == nil {
+					return
+				}
+				for _, o := range origins(recv) {
+					if ex, ok := o.(*ssa.Extract); ok && ex.Tuple == ssa.Value(call) && ex.Index == 0 {
+						bad = append(bad, p.Pos(cc.Pos())+": the pool returned by LoadOrStore (the one in service for that host) is cancelled")
+					}
+				}
+			})
+		})
+	}
+	r.check(len(bad) == 0 && n > 0, rule, "Session.OnEvent#AddEvent", p.Pos(onEvent.Pos()), fmt.Sprintf("%d LoadOrStore site(s)", n), strings.Join(dedupe(bad), " || "))
 }
